@@ -59,8 +59,8 @@ CLAIMED = {
              'edge runs against time and then preserves identifiers, variable and edge types, user metadata minus the two '
              'reserved keys, every time-respecting edge unchanged (others swapped); time-series->plain preserves everything; '
              'from_causal_graph. Enum texts are proved equal to a table regenerated from type_definitions.py each run.',
-        note=_COMMON_NOTE + 'json itself is trusted; metadata values are opaque canonical JSON texts in the model. Extra hypothesis '
-                            'PlainNorm (plain-class node records carry no variable/lag), true of every reachable state.'),
+        note=_COMMON_NOTE + 'json itself is trusted; metadata values are opaque canonical JSON texts in the model. The extra hypothesis '
+                            'PlainNorm is discharged for every reachable state (plainNorm_run, fromDict_toDict_run).'),
     'C07': dict(
         technique='Lean 4 proof (__eq__ transcribed incl. the raising reversed-pair fallback; characterised as a structural '
                   'equivalence) with differential correspondence on edited pairs; direction-agnostic type list regenerated from source',
@@ -77,8 +77,10 @@ CLAIMED = {
              'refuse exactly the unrepresentable graphs (no edge dropped or retyped); from_adjacency_matrix(*to_numpy g) and the '
              'networkx / skeleton round trips rebuild the same nodes, directed edges and undirected pairs, both classes; '
              'non-2D / non-square / non-binary / wrong name count refused for every input; a validated constructor accepts '
-             'exactly the acyclic inputs; lagged-matrix entry law. The lagged round trip through from_adjacency_matrices is '
-             'stated (fromAdjMatrices_toNumpyByLag_statement) but not proved: partial, covered by the lane only.',
+             'exactly the acyclic inputs; lagged-matrix entry law; the lagged round trip: on the property\'s domain '
+             'from_adjacency_matrices(*to_numpy_by_lag()) followed by the minimal graph has the node identifiers, directed edges '
+             'and undirected pairs of the minimal graph and compares == to it (attributes are not carried by matrices), a cyclic '
+             'minimal graph is refused on validated re-import; also for construct_minimal=False.',
         note=_COMMON_NOTE + 'GML text layer trusted (labels "()" and "[]" are mangled by networkx and excluded); numpy / '
                             'networkx.to_numpy_array assumed.'),
     'C09': dict(
@@ -176,8 +178,10 @@ CLAIMED = {
              'variable at every lag, contains exactly the template copies that fit in the window, is itself stationary, is the '
              'least stationary super-graph over that window, and applying it again gives an equal graph; is_stationary_graph is '
              'false for every non-DAG and true iff the graph is a DAG and nothing is missing (every variable at every lag, every '
-             'fitting copy). The temporary equality of the model is proved equal to the modelled __eq__ (C07). Open: idempotence '
-             'as equality of full states incl. attributes (stationary_idem_statement).',
+             'fitting copy). The temporary equality of the model is proved equal to the modelled __eq__ (C07). Idempotence as '
+             'equality of FULL states holds when all nodes of a variable carry the same attributes (stationary_idem_state); the '
+             'unconditional statement is false and refuted by a kernel-checked counter-example that reproduces on the code (the '
+             'second application may take a variable\'s attributes from another lagged copy); the property itself does not ask for it.',
         note=_COMMON_NOTE + 'windows with a positive latest lag are outside the property (the code widens the window there).'),
     'C17': dict(
         technique='Lean 4 proof (collapse loop invariant over the sorted edge list: total on every time-series DAG, nodes = '
